@@ -681,6 +681,11 @@ impl<'b, 'a: 'b> FmtVisitor<'a> {
             (ast::AssocItemKind::MacCall(ref mac), _) => {
                 self.visit_mac(mac, MacroPosition::Item);
             }
+            (ast::AssocItemKind::Delegation(..) | ast::AssocItemKind::DelegationMac(..), _) => {
+                // TODO: rewrite delegation items once syntax is established.
+                // For now, leave them as written, like delegation items outside of an impl.
+                self.push_rewrite(ai.span, None);
+            }
             _ => unreachable!(),
         }
     }
